@@ -7,7 +7,7 @@ From Coq Require Import String.
 From Boltons Require Import Lib.Prelude Lib.C06_Text Spec.C06_Spec Model.C06_Model Gen.C06_Gen Gen.C06_Src
   Proofs.C06_SrcEq
   Proofs.C06_Codec Proofs.C06_Utf8 Proofs.C06_Quote Proofs.C06_Lists Proofs.C06_Round Proofs.C06_Legal
-  Proofs.C06_Shape Proofs.C06_Parsed Proofs.C06_QuoteMin Proofs.C06_Parts Proofs.C06_RoundMin Proofs.C06_Total
+  Proofs.C06_NoAuth Proofs.C06_Shape Proofs.C06_Parsed Proofs.C06_QuoteMin Proofs.C06_Parts Proofs.C06_RoundMin Proofs.C06_Total
   Proofs.C06_GenOk.
 Open Scope N_scope.
 
@@ -289,6 +289,49 @@ Theorem C06_fixpoint_full_parsed_partial : forall T O, tables_ok T = true ->
   forall t1 u1, to_text T O true u = MOk t1 -> url_init T O t1 = MOk u1 -> to_text T O true u1 = MOk t1.
 Proof. exact fixpoint_full_parsed. Qed.
 Print Assumptions C06_fixpoint_full_parsed_partial.
+
+(* REFERENCES WITHOUT AN AUTHORITY (no userinfo, no host: mailto:x, urn:a:b, http:/p, /abs/path, rel?q#f,
+   x:///p ...), scheme possibly empty.  Components survive the round trip, the re-parsed URL has
+   `//`-ness exactly when to_text wrote "//", and rendering it again gives the same text.  A scheme-less
+   reference must not render with a ':' before its first '/' (noscheme: decidable on the rendered path;
+   such a text reads as "scheme:..." - e.g. URL('a%3Ab')); the empty reference is excluded. *)
+Theorem C06_roundtrip_noauth : forall T O, tables_ok T = true ->
+  forall scheme sep fam port path q frag,
+  let nfc := o_nfc O in
+  let u := mkU scheme sep [] [] fam [] port path q frag in
+  let pathtxt := join [47] (map (quote_full T O CPath) path) in
+  forallb (not_in [58; 47; 63; 35]) scheme = true -> nfc [] = [] ->
+  path <> [] -> Forall (fun s => all_scalar (nfc s) = true) path -> Forall (C06_Round.pair_ok O) q ->
+  all_scalar (nfc frag) = true ->
+  (scheme = [] -> noscheme pathtxt = true) ->
+  forall full, to_text T O true u = MOk full -> full <> [] ->
+  url_init T O full
+  = MOk (mkU scheme (nonempty (slashes scheme pathtxt (uses_netloc T u))) [] [] 0 [] None
+             (map nfc path) (map (nfc_pair O) q) (nfc frag)).
+Proof. exact roundtrip_na. Qed.
+Print Assumptions C06_roundtrip_noauth.
+
+Theorem C06_fixpoint_full_noauth_partial : forall T O, tables_ok T = true ->
+  forall t u,
+  let nfc := o_nfc O in
+  url_init T O t = MOk u ->
+  u_user u = [] -> u_pass u = [] -> u_host u = [] -> u_path u <> [] ->
+  nfc [] = [] -> (forall x, nfc (nfc x) = nfc x) ->
+  Forall (fun s => all_scalar (nfc s) = true) (u_path u) -> Forall (C06_Round.pair_ok O) (u_query u) ->
+  all_scalar (nfc (u_frag u)) = true ->
+  (u_scheme u = [] -> noscheme (join [47] (map (quote_full T O CPath) (u_path u))) = true) ->
+  forall t1 u1, to_text T O true u = MOk t1 -> t1 <> [] -> url_init T O t1 = MOk u1 -> to_text T O true u1 = MOk t1.
+Proof. exact fixpoint_full_parsed_na. Qed.
+Print Assumptions C06_fixpoint_full_noauth_partial.
+
+Example C06_ex_noauth :
+  (do u <- url_init gen_tables id_oracles (Tx "mailto:a%40b@c?subject=x%20y");
+   do t1 <- to_text gen_tables id_oracles true u; do u1 <- url_init gen_tables id_oracles t1;
+   do t2 <- to_text gen_tables id_oracles true u1; MOk (t1, t2))
+  = MOk (Tx "mailto:a@b@c?subject=x%20y", Tx "mailto:a@b@c?subject=x%20y")
+  /\ (do u <- url_init gen_tables id_oracles (Tx "../a%3Ab/c;d#f");
+      do t1 <- to_text gen_tables id_oracles true u; MOk (t1, noscheme t1)) = MOk (Tx "../a:b/c;d#f", true).
+Proof. vm_compute. split; reflexivity. Qed.
 
 Theorem C06_fixpoint_full_v6_partial : forall T O, tables_ok T = true ->
   forall scheme sep user pw fam host port rest q frag,
